@@ -147,7 +147,7 @@ class Source:
         s, e = self.find_header(regex, lo, hi, what)
         ob = self.m.find('{', e - 1)
         semi = self.m.find(';', e - 1)
-        if ob < 0 or (0 <= semi < ob):
+        if what.startswith('struct') and (ob < 0 or (0 <= semi < ob)):
             # e.g. tuple struct `struct X(A, B);`
             return self._attr_start(s), semi + 1
         cb = match_close(self.m, ob)
